@@ -17,7 +17,7 @@ mutual
 def Code.binders : Code → List Name
   | .seq cs => cs.binders
   | .enumTuple _ _ _ bs body _ => bs.flatMap Binder.names ++ body.binders
-  | .structNamed _ _ _ fields _ body _ => fields.map Name.field ++ body.binders
+  | .structNamed _ _ _ fields _ _ body _ => fields.map Name.field ++ body.binders
   | .tuple _ bs body => bs.flatMap Binder.names ++ body.binders
   | .slice _ bs body _ => bs.flatMap Binder.names ++ body.binders
   | .mapGet _ _ _ body _ => Name.mapValue :: body.binders
